@@ -44,6 +44,15 @@ def run(ctx):
                 n_car += n
                 r["failures"] += fails
                 r["evaluations"] += n
+        if name == "climatology_test":
+            # members bounded by calendar DATES (no period) compare the times themselves with the bounds: every time
+            # carrier, the timezone-aware ones included, on cases that have such a member
+            dated = [c for c in cs if any(m["period"] is None for m in c["cfg"]) and len(c["xs"]) >= 1]
+            for c in cc.sample(dated, 25 if tier == "quick" else 250, rng):
+                n, fails = cc.c15_failures(name, ad, c, rng, full=True, time_only=True)
+                n_car += n
+                r["failures"] += fails
+                r["evaluations"] += n
         results.append(r)
         if fine:
             results.append(adapters.run_adapter(ad, fine, rng, repeat_frac=0))      # and the model agrees on them
